@@ -83,5 +83,28 @@ TEXTS.update({
  },
 })
 
+TEXTS.update({
+ 'C06': {
+  'level': "Exhaustive over the finite program space: all 15x15x6 = 1350 binary-operator programs over the 14 catalogue types and the amount type (plus 150 for the astronomical crate), in both back-ends, each a function of its own in one crate compiled by rustc; every accepted program is compiled again with each of the 16 possible result-type ascriptions. TLC predicts every verdict from the DECLARED derivations alone (like-with-like rules, scalar rules, the operator table the derivations generate) - 3782 + 3782 + 402 verdicts per run. Thorough additionally recompiles a sample of rejected programs on their own to rule out masking.",
+  'note': TB + "rustc's type checker is the observer; spec/Types.tla holds TypeChecks / ResultType.",
+  'technique': "TLA+ trace validation of compiler verdicts on an exhaustively generated program family",
+ },
+ 'C11': {
+  'level': "VERIF_SEED-generated well-formed declarations (alphabetic snake/camel identifiers, non-ASCII symbols, several literal spellings of the same scale, optional prefixes / docs, with and without reference unit, single-unit, derived incl. squares and AmountT quotients) are rendered twice - original and with permuted unit attributes - through the REAL proc macro, compiled in both back-ends, dumped and driven through the generic drivers of C01-C05, C08-C10; TLC judges names / variants / constants (identifier mapping transcribed on code points), symbols, prefixes, scales (the literal's exact value), iteration order (stable sort, ties in attribute order) and every arithmetic clause family against each declaration; failure of the generated items to compile is a violation. The model and fixture registries are included.",
+  'note': TB + "the generator (tools/gen_decl.py) only produces declarations inside the claimed sub-language (alphabetic words; scales identical or clearly distinct).",
+  'technique': "TLA+ trace validation of macro-generated types against their own (generated, permuted) declarations",
+ },
+ 'C12': {
+  'level': "Model checking: the attribute-argument parser as an explicit automaton is compared with the documented argument forms over ALL token-kind sequences up to length 9 (2.4 million). Conformance: about 40 defect classes applied to seeded well-formed definitions, each program compiled on its own by rustc against the freshly built library in both back-ends; WellFormed() in spec/Macro.tla predicts the verdict from an abstract description of the definition, and the error must be reported within the lines of the offending definition. Each well-formed base is compiled too.",
+  'note': TB + "rustc diagnostics (primary spans and macro call sites) locate errors; diagnostic text is not compared.",
+  'technique': "TLC model checking of the parser automaton + TLA+ trace validation of compile verdicts on defect-injected definitions",
+ },
+ 'C19': {
+  'level': "Model checking of the configuration machine over all 2^14 feature sets (every set builds, is self-contained, API grows monotonically) plus conformance: Cargo.toml's feature edges and each module's use-edges are checked against the declared derivations; cargo check of feature configurations with a probe program per feature that names the quantity, its reference-unit constant and its derivation operator (quick: 16 choices in the default configuration + all/none/two rotating singles in the other seven {std,no_std}x{f64,Decimal}x{serde} configurations; thorough: all 128); a fixed operation corpus (conversions, comparisons, arithmetic, formatting, table conversions) executed in a minimal no_std configuration and in the full std configuration must print identical results in both back-ends.",
+  'note': TB + "cargo/rustc decide 'builds'; the corpus compares printed exact representations.",
+  'technique': "TLC model checking of the feature machine + TLA+ trace validation of build verdicts and a differential operation corpus",
+ },
+})
+
 NOT_APPLICABLE = {
 }
